@@ -229,7 +229,7 @@ def expand(prop, mod, hmod, tier, only=None):
         if callable(cases):
             cases = cases()
         to = ob.get('timeout', (60, 300))
-        timeout = to[1] if tier == 'thorough' else to[0]
+        timeout = min(to[1], int(os.environ.get('VERIF_THOROUGH_CAP', '600'))) if tier == 'thorough' else to[0]
         kn = sorted({e['class'] for e in known if e['obligation'] == ob['id'] and e['status'] == 'finding'})
         splits = ob.get('splits') or [[]]
         if tier == 'thorough':
